@@ -8,13 +8,38 @@ use crate::runner::*;
 use crate::tape::{Fp, Tape};
 use core::ffi::{c_int, c_ulong};
 
-pub const RULE: &str = "tape -> byte string (noise with plausible headers, mutations of R-GEN / encoder streams, single-fault streams, prefixes, valid streams) x any windowBits accepted by inflateInit2 {-15..-8, 0, 8..15, 24..31, 40..47} (NOT restricted to windows that fit the stream) x schedule with 0/1-byte buffers x entry point {inflate, zlib_rs::Inflate, inflateGetHeader with capture capacities {NULL,0,1,..}, uncompress, uncompress2, decompress_slice}. Every caller buffer sits between PROT_NONE guard pages (input and output end exactly at the guard). Oracle: worker survives (no signal/abort/panic), canaries before next_out intact, status in the documented set, call count bounded by the schedule, total_out <= 1032*total_in+1032. Non-trivial = decoder got past the wrapper and one block header and produced >= 1 byte or failed inside a block; distinct by (bytes, windowBits, schedule, entry).";
+pub const RULE: &str = "tape -> byte string (noise with plausible headers, mutations of R-GEN / encoder streams, single-fault streams, prefixes, valid streams) x any windowBits accepted by inflateInit2 {-15..-8, 0, 8..15, 24..31, 40..47} (NOT restricted to windows that fit the stream) x schedule with 0/1-byte buffers x entry point {inflate, zlib_rs::Inflate, inflateGetHeader with capture capacities {NULL,0,1,..}, uncompress, uncompress2, decompress_slice, inflateBack (1 case in 8: C19's engine with guard-paged window, callback slices and abort points; only its safety oracles count here)}. Every caller buffer sits between PROT_NONE guard pages (input and output end exactly at the guard). Oracle: worker survives (no signal/abort/panic), canaries before next_out intact, status in the documented set, call count bounded by the schedule, total_out <= 1032*total_in+1032. Non-trivial = decoder got past the wrapper and one block header and produced >= 1 byte or failed inside a block; distinct by (bytes, windowBits, schedule, entry).";
 
 const WBITS: [c_int; 38] = [
     -15, -14, -13, -12, -11, -10, -9, -8, 0, 8, 9, 10, 11, 12, 13, 14, 15, 24, 25, 26, 27, 28, 29, 30, 31, 40, 41, 42, 43, 44, 45, 46, 47, 15, -15, 31, 47, 16,
 ];
 
+/// inflateBack entry point (the statement names it): the C19 engine runs the case - guard-paged window, callback
+/// slices, abort points - and only its memory-safety / documented-status / bounded-work oracles count here; the
+/// "equals inflate" half is C19's business. A process death is attributed to the running check, i.e. C02.
+fn back_case(tape: &[u8], ctx: &Ctx) -> Outcome {
+    let mut o = crate::props::c19::case(tape, ctx);
+    const SAFETY: [&str; 6] = ["inflateBack/write-outside-window", "inflateBack/out-pointer-outside-window", "inflateBack/undocumented-status", "inflateBack/in-callback-unbounded", "inflateBack/expansion-bound", "inflateBackEnd/status"];
+    if let Some(f) = &o.fail {
+        if !SAFETY.contains(&f.sig.as_str()) {
+            o.fail = None;
+        }
+    }
+    o.known.clear();
+    o.classes = vec!["entry:inflateBack"];
+    if let Some(fp) = o.nontrivial {
+        o.nontrivial = Some(fp ^ 0xBAC0_BAC0);
+    }
+    o
+}
+
 pub fn case(tape: &[u8], ctx: &Ctx) -> Outcome {
+    // one case in eight goes through inflateBack (selected by the last tape byte, the rest is the C19 tape)
+    if let Some((&last, rest)) = tape.split_last() {
+        if last >= 224 {
+            return back_case(rest, ctx);
+        }
+    }
     let mut o = Outcome::new();
     let mut t = Tape::new(tape);
     let so = SubjectOpts::all();
